@@ -29,6 +29,8 @@ type Prog struct {
 	declOf      map[*types.Func]*Func
 	litOf       map[*ast.FuncLit]*Func
 	graphs      map[*Func]*Graph
+	rshadow     map[*types.Var]*types.Var // mutex -> its "held in read mode" shadow
+	rshadowOf   map[*types.Var]*types.Var // shadow -> mutex
 	parentOf    map[ast.Node]ast.Node
 	Overlay     map[string][]byte
 	InlineNotes []string
